@@ -436,6 +436,16 @@ def analyse_text(rec, text, names_in, src_jobs, src2, delivered_idx, kin,
 
 
 def run_unit(unit: dict) -> dict:
+    import time as _t
+
+    t0 = _t.time()
+    r = _run_unit(unit)
+    if isinstance(r, dict):
+        r["wall_s"] = round(_t.time() - t0, 2)
+    return r
+
+
+def _run_unit(unit: dict) -> dict:
     kind = unit.get("kind", "learn")
     fn = {"learn": _child_learn}.get(kind)
     if fn is None:
@@ -443,7 +453,7 @@ def run_unit(unit: dict) -> dict:
 
         fn = world_learner_ext.CHILD_FUNCS[kind]
     try:
-        st, val = core.run_forked(fn, unit, wall_limit=unit.get("wall", 180))
+        st, val = core.run_forked(fn, unit, wall_limit=unit.get("wall", 900))
     except core.ChildTimeout:
         return {"status": "harness-timeout", "wid": unit.get("wid"),
                 "sched": unit.get("sched")}
